@@ -147,6 +147,100 @@ def neutralise(rng, case):
             if e[0] == it["path"]: e[3] = [pepper.sexp_nums(it["prog"]["decl"]), pepper.sexp_nums(it["prog"]["body"])]
     case["files"] = g.files; case["entries"] = g.entries
 
+# ---- designer-side leg: Convert.process_results + Convert.output against the model `design_results` ----
+def parse_records(text):
+    lines = text.split("\n"); recs = []; i = 0
+    while i + 1 < len(lines):
+        m = re.match(r"^\d+:(\S+)$", lines[i])
+        if not m: break
+        seq = "" if lines[i + 1].startswith(" ") else lines[i + 1].split(" ")[0]
+        recs.append([m.group(1), seq]); i += 4
+    return recs
+
+def impl_results(case):
+    """arrays -> a string (valid, or corrupted in a stated way) -> process_results -> output(findmfe=False) -> records"""
+    import implrun, contextlib, io
+    d = implrun.fresh_dir()
+    out = {}
+    try:
+        path = os.path.join(d, "doc.pil")
+        open(path, "w").write(case["text"])
+        for so in (False, True):
+            rng = random.Random(case["seed"] * 2 + so)
+            a, conv = implrun.designer_arrays(path, so)
+            if a["outcome"] != "ok":
+                out["struct" if so else "strand"] = {"outcome": "no-arrays"}; continue
+            nts = implrun.fill_design(a["eq"], a["wc"], a["st"], rng)
+            used = [i for i, e in enumerate(a["eq"]) if e is not None]
+            kind = case["kind"]
+            if kind == "flip" and used:
+                i = rng.choice(used); nts = nts[:i] + rng.choice([b for b in "ACGT" if b != nts[i]]) + nts[i + 1:]
+            elif kind == "blank" and used:
+                i = rng.choice(used); nts = nts[:i] + " " + nts[i + 1:]
+            elif kind == "short" and used:
+                nts = nts[:rng.choice(used)]
+            elif kind == "degenerate" and used:
+                i = rng.choice(used); nts = nts[:i] + rng.choice("NSWRY") + nts[i + 1:]
+            try: valid = len(nts) == len(a["eq"]) and implrun.check_arrays(a["eq"], a["wc"], a["st"], nts) is None
+            except KeyError: valid = False
+            r = {"nts": nts, "valid": valid}
+            err = io.StringIO(); mfe = os.path.join(d, "o%d.mfe" % so)
+            try:
+                with contextlib.redirect_stdout(err), contextlib.redirect_stderr(err):
+                    conv.process_results(nts)
+                    conv.output(mfe, findmfe=False)
+                r.update(outcome="ok", records=parse_records(open(mfe).read()))
+            except SystemExit:
+                r.update(outcome="failed", error="exit")
+            except Exception as e:
+                r.update(outcome="failed", error="%s: %s" % (type(e).__name__, str(e)[:150]))
+            out["struct" if so else "strand"] = r
+        return out
+    finally:
+        shutil.rmtree(d, ignore_errors=True)
+
+def results_leg(rng, n):
+    from props import c04
+    docs = [d for d in c04.gen_docs(rng, n)]
+    kinds = ["valid", "valid", "valid", "flip", "blank", "short", "degenerate"]
+    cases = [{"text": d["text"], "seed": rng.randrange(10**6), "kind": kinds[i % len(kinds)]} for i, d in enumerate(docs)]
+    impl = fw.run_impl("props.c06", "impl_results", cases, per_case_timeout=60)
+    reqs = []; where = []
+    for i, (d, r) in enumerate(zip(docs, impl)):
+        if not isinstance(r, dict) or "strand" not in r: continue
+        for lay in ("strand", "struct"):
+            if r.get(lay, {}).get("outcome") in ("ok", "failed"):
+                reqs.append(["results", [c04.lines_sexp(d["lines"]), lay == "struct", r[lay]["nts"]]]); where.append((i, lay))
+    mres = dict(zip(where, fw.run_model(reqs)))
+    failures = []; dist = {"runs": 0, "valid_strings": 0, "records_compared": 0, "impl_failed": 0, "kinds": {}}
+    for i, (d, c, r) in enumerate(zip(docs, cases, impl)):
+        if not isinstance(r, dict) or "strand" not in r:
+            failures.append({"kind": "disagreement", "key": "results-run", "summary": "runner failed: %r" % (str(r)[:200],), "replay": {"files": {"doc.pil": d["text"]}}}); continue
+        for lay in ("strand", "struct"):
+            p = r.get(lay, {})
+            if (i, lay) not in mres: continue
+            m = mres[(i, lay)]; dist["runs"] += 1; dist["kinds"][c["kind"]] = dist["kinds"].get(c["kind"], 0) + 1
+            rep = {"files": {"doc.pil": d["text"]}, "layout": lay, "nts": p["nts"],
+                   "reproduce": "conv = Convert('doc.pil', %s); conv.get_constraints(); conv.process_results(nts); conv.output('out.mfe', findmfe=False)" % (lay == "struct")}
+            if p["valid"]:
+                dist["valid_strings"] += 1
+                if p["outcome"] != "ok":
+                    failures.append({"kind": "predicate", "key": "results-fail", "summary": "a string satisfying the arrays is refused by process_results / output (%s layout): %s" % (lay, p.get("error", "")[:160]), "replay": rep}); continue
+            if p["outcome"] == "ok":
+                if m[0] != "ok":
+                    failures.append({"kind": "disagreement", "key": "results-model-rejects", "summary": "model refuses the designed string (%s), implementation writes records (%s layout)" % (m[1], lay), "replay": rep})
+                else:
+                    dist["records_compared"] += 1
+                    a = sorted((x[0], x[1]) for x in m[1]); b = sorted((x[0], x[1]) for x in p["records"])
+                    if a != b:
+                        diff = [x for x in a if x not in b][:2] + [x for x in b if x not in a][:2]
+                        failures.append({"kind": "disagreement", "key": "results-records", "summary": "model and implementation write different .mfe records (%s layout): %r" % (lay, diff), "replay": rep})
+            else:
+                dist["impl_failed"] += 1
+                if m[0] == "ok":
+                    failures.append({"kind": "disagreement", "key": "results-model-accepts", "summary": "model writes records, implementation fails (%s layout): %s" % (lay, p.get("error", "")[:160]), "replay": rep})
+    return failures, dist
+
 def run(tier, seed, build):
     rng = random.Random(seed * 173 + 6)
     n = 60 if tier == "quick" else 800
@@ -253,8 +347,11 @@ def run(tier, seed, build):
                     pass
     finally:
         shutil.rmtree(wd, ignore_errors=True)
-    return {"evaluations": dist["pipelines"] + dist["cli_runs"], "distinct_nontrivial": len(nontrivial),
-            "rule": "satisfiable generated components (incl. unused degenerate sequences, dummy strands, zero-length domains) and system libraries; both layouts; compile -> Convert.get_constraints -> harness assignment satisfying the arrays -> process_results -> .mfe -> finish; the .seqs / strands files checked against the source denotation (constraints, reverse complements, concatenations, Watson-Crick pairs, signal agreement, completeness) and compared with the finish model; plus %d runs through the three command-line tools with the real spuriousSSM. Non-trivial = completed pipeline with a source denotation" % ncli,
+    # designer-side leg: the model of process_results / output against the implementation, on PIL documents
+    rf, rdist = results_leg(rng, 150 if tier == "quick" else 2000)
+    failures += rf; dist["results_leg"] = rdist
+    return {"evaluations": dist["pipelines"] + dist["cli_runs"] + rdist["runs"], "distinct_nontrivial": len(nontrivial),
+            "rule": "satisfiable generated components (incl. unused degenerate sequences, dummy strands, zero-length domains) and system libraries; both layouts; compile -> Convert.get_constraints -> harness assignment satisfying the arrays -> process_results -> .mfe -> finish; the .seqs / strands files checked against the source denotation (constraints, reverse complements, concatenations, Watson-Crick pairs, signal agreement, completeness) and compared with the finish model; plus %d runs through the three command-line tools with the real spuriousSSM; plus the designer-side leg: PIL documents (compiler-emitted and hand-written) x both layouts x a string satisfying the arrays or corrupted in a stated way (one base flipped, a blank, a degenerate code, truncated) through Convert.process_results and Convert.output, records and refusals compared with the model design_results. Non-trivial = completed pipeline with a source denotation" % ncli,
             "samples": [c["files"] for c in cases[:1]], "distribution": dist, "failures": failures}
 
 def replay(path):
